@@ -789,6 +789,9 @@ def oracle_fitted_state(case, ctx):
             "predict_without_fh": lambda e: e.predict(),
             "score_without_fh": lambda e: e.score(y_new.iloc[:2]),
             "update_predict_single_without_fh": lambda e: e.update_predict_single(y_new.copy()),
+            # ... and with a batch that holds no observation (a documented no-op once fitted)
+            "update_with_empty_batch": lambda e: e.update(y_new.iloc[:0].copy()),
+            "update_with_empty_batch_no_refit": lambda e: e.update(y_new.iloc[:0].copy(), None, False),
         }
         if spec["kind"] == "pipeline":
             calls["transform"] = lambda e: e.transform(y.copy())
